@@ -38,7 +38,7 @@ func checkStateAgainstSpec(res *racResult, w *racWorld, h racHistory, tag string
 // C06 contract (bounded):  view(Undo(Modify(x, block))) == view(x), to any depth, then redo.
 func TestRAC_C06(t *testing.T) {
 	res := newRacResult("C06")
-	cfgs := []mapCfg{{true, 63}, {true, 0}, {true, 3}, {false, 63}, {false, 0}}
+	cfgs := []mapCfg{{Full: true, TotalRows: 63}, {Full: true, TotalRows: 0}, {Full: true, TotalRows: 3}, {Full: false, TotalRows: 63}, {Full: false, TotalRows: 0}}
 	if res.thorough() {
 		cfgs = racMapCfgs(true)
 	}
